@@ -184,6 +184,9 @@ class CallMixin:
             raise Unsupported("no contract for %s" % qn)
         if f.kind == "external" and qn in ("copy.copy", "copy"):
             return self.copy_copy(args[0], st, cx)
+        if f.kind == "external" and qn == "collections.defaultdict":
+            self.warnings.append("collections.defaultdict modelled as an empty dict (default-on-read not modelled)")
+            return [(st, VConcDict([]))]
         if f.kind == "external" and qn == "itertools.chain":
             from .sym_builtin import VChain
             if len(args) == 1 and isinstance(args[0], VStarList):
